@@ -37,7 +37,7 @@ impl Constraint {
 
 #[derive(Clone, Debug, PartialEq)]
 pub enum AuxKind {
-    /// aux[k+1] = aux[k] * (main[col][k] + r), aux[0] = 1
+    /// aux[k+1] = aux[k] * (main[col][k] + r)^pow, aux[0] = 1 (constraint degree 1 + pow)
     Product,
     /// aux[k+1] = aux[k] + r * main[col][k], aux[0] = r
     Sum,
@@ -46,6 +46,8 @@ pub enum AuxKind {
 #[derive(Clone, Debug, PartialEq)]
 pub struct AuxCol {
     pub kind: AuxKind,
+    /// exponent of the Product kind (1..=4); 1 for Sum
+    pub pow: usize,
     pub main_col: usize,
     /// index of the random element used as r; None = the constant 7
     pub rand: Option<usize>,
@@ -126,8 +128,10 @@ impl Spec {
             let (b, cy) = c.degree(&self.periodic);
             m = m.max((b + cy.len() - 1).next_power_of_two());
         }
-        if self.aux.iter().any(|a| a.kind == AuxKind::Product) {
-            m = m.max(2);
+        for a in &self.aux {
+            if a.kind == AuxKind::Product {
+                m = m.max(a.pow.next_power_of_two()).max(2);
+            }
         }
         m
     }
@@ -141,7 +145,7 @@ impl Spec {
             best = best.max(d);
         }
         for a in &self.aux {
-            best = best.max(if a.kind == AuxKind::Product { 2 * (n - 1) } else { n - 1 });
+            best = best.max(if a.kind == AuxKind::Product { (1 + a.pow) * (n - 1) } else { n - 1 });
         }
         best
     }
@@ -278,10 +282,16 @@ fn gen_spec_once(rng: &mut Rng, field: FieldSpec, gp: &GenParams) -> Spec {
         let a = rng.range(1, 3);
         let r = if rng.chance(1, 8) { 0 } else { rng.range(1, 4) };
         let cols = (0..a)
-            .map(|_| AuxCol {
-                kind: if rng.bool() { AuxKind::Product } else { AuxKind::Sum },
+            .map(|_| {
+                let kind = if rng.bool() { AuxKind::Product } else { AuxKind::Sum };
+                // higher auxiliary degrees (the auxiliary segment can carry the highest degree of the AIR)
+                let pow = if kind == AuxKind::Product && gp.max_blowup >= 4 { *rng.pick(&[1usize, 1, 1, 2, 3, 4]) } else { 1 };
+                AuxCol {
+                kind,
+                pow,
                 main_col: *rng.pick(&factor_cols),
                 rand: if r == 0 { None } else { Some(rng.usize(r)) },
+                }
             })
             .collect();
         (cols, r)
